@@ -137,7 +137,7 @@ class PoolWorld(HistoryWorld):
         if leg == 'deep':
             return {'steps': 6, 'callers': 1, 'arena': 2, 'deep': [1022, 1023][run_index % 2]}
         if leg == 'boundary':
-            shapes = ['cells255', 'cells256', 'cells257', 'pay255', 'pay256', 'pay65535', 'pay65536', 'diamond', 'ladder', 'wide-shared', 'exotic', 'two-same-refs', 'proof-next-to-data', 'update-skeleton-vs-full']
+            shapes = ['cells255', 'cells256', 'cells257', 'pay255', 'pay256', 'pay65535', 'pay65536', 'diamond', 'ladder', 'wide-shared', 'exotic', 'two-same-refs', 'proof-next-to-data', 'update-skeleton-vs-full', 'exotic-lookalike']
             return {'steps': 8, 'callers': 1, 'arena': 1, 'shape': shapes[run_index % len(shapes)]}
         if leg == 'huge':
             return {'steps': 5, 'callers': 1, 'arena': 1, 'shape': 'cells%d' % (65534 + run_index % 4)}
@@ -183,7 +183,7 @@ class PoolWorld(HistoryWorld):
             q.append({'op': 'arena_cell', 'bits': _rbits(rng, nb), 'refs': refs, 'caller': -1})
         if cfg.get('exotic') or self.prop == 'C08':
             for _ in range(rng.randint(1, 3)):
-                q.append({'op': 'arena_exotic', 'kind': rng.choice(['pruned', 'proof', 'update', 'library', 'skeleton-pair', 'skeleton-pair']), 'c': rng.randrange(1 << 16),
+                q.append({'op': 'arena_exotic', 'kind': rng.choice(['pruned', 'proof', 'update', 'library', 'skeleton-pair', 'skeleton-pair', 'lookalike', 'lookalike-separate']), 'c': rng.randrange(1 << 16),
                           'd': rng.randrange(1 << 16), 'caller': -1})
 
     def _ref(self, rng):
@@ -250,7 +250,8 @@ class PoolWorld(HistoryWorld):
         if kind == 'eq':
             return {'op': 'eq', 'a': ref, 'b': self._ref(rng), 'caller': k}
         if kind == 'parse_load':
-            return {'op': 'parse_load', 'c': ref, 'n': rng.choice([0, 1, 8, 64, 1023, rng.randint(0, 200)]), 'refs': rng.choice([0, 1, 2]), 'how': rng.choice(['load_bits', 'skip_bits', 'load_uint', 'load_bytes']), 'caller': k}
+            return {'op': 'parse_load', 'c': ref, 'n': rng.choice([0, 1, 8, 64, 1023, rng.randint(0, 200)]), 'refs': rng.choice([0, 1, 2]), 'how': rng.choice(['load_bits', 'skip_bits', 'load_uint', 'load_bytes']),
+                    'route': rng.choice(['begin_parse', 'begin_parse', 'from_cell', 'to_slice', 'copy', 'from_cell_copy', 'via_builder', 'slice_to_builder']), 'caller': k}
         if kind == 'builder_store':
             return {'op': 'builder_store', 'c': ref, 'bits': _rbits(rng, rng.choice([1, 8, 100])), 'ref': self._ref(rng), 'caller': k}
         if kind == 'from_builder':
@@ -327,6 +328,24 @@ class PoolWorld(HistoryWorld):
                 skel = RCell(a.bits, (pruned_of(a.refs[0], 1),) + tuple(a.refs[1:]))
                 twin = RCell('11', (merkle_proof_of(skel), a))
                 ctx.probe('cell-next-to-its-pruned-skeleton')
+            elif kind in ('lookalike', 'lookalike-separate'):
+                # an exotic leaf and an ordinary leaf holding the very same data bits are different cells
+                if op['c'] % 2 and a.mask == 0:
+                    ex = pruned_of(a, 1)
+                    exroot = merkle_proof_of(RCell('10', (ex,)))
+                else:
+                    ex = library_ref_of(a.hash)
+                    exroot = RCell('10', (ex,))
+                plain = RCell(ex.bits)
+                ctx.probe('exotic-leaf-and-ordinary-leaf-with-equal-bits')
+                if kind == 'lookalike':
+                    twin = RCell('0', (exroot, plain) if op['d'] % 2 else (plain, exroot))
+                else:
+                    # in separate bags: the ordinary twin joins the pool on its own
+                    ok2, c2 = call(lib_cell_from_rcell, plain)
+                    if ok2:
+                        self._register(st, st.arena, c2, plain, ctx, 'exotic-lookalike')
+                    twin = exroot
             elif kind == 'proof':
                 twin = merkle_proof_of(a)
             elif kind == 'update':
@@ -690,7 +709,30 @@ class PoolWorld(HistoryWorld):
         if e is None:
             return None
         def go():
-            s = e['lib'].begin_parse()
+            c = e['lib']
+            route = op.get('route', 'begin_parse')
+            if route == 'from_cell':
+                s = Slice.from_cell(c)
+            elif route == 'to_slice':
+                s = c.to_slice()
+            elif route == 'copy':
+                s = c.begin_parse().copy()
+            elif route == 'from_cell_copy':
+                s0 = Slice.from_cell(c)
+                s = s0.copy()
+                s0.skip_bits(min(3, len(c.bits)))
+            elif route == 'via_builder':
+                s = c.to_builder().to_slice() if c.type_ == -1 else c.begin_parse()
+            elif route == 'slice_to_builder':
+                s = c.begin_parse()
+                if c.type_ == -1:
+                    b = s.to_builder()          # a builder derived from the slice is written to; slice and cell must not notice
+                    if len(c.bits) < 1000:
+                        b.store_bits('101')
+                    if len(c.refs) < 4:
+                        b.store_ref(c)
+            else:
+                s = c.begin_parse()
             out = []
             n = op['n']
             if op['how'] == 'load_bits':
@@ -991,6 +1033,13 @@ def make_shape(shape, rng):
         old_skel = RCell('1010', (pruned_of(a, 1), pruned_of(b, 1)))
         new_full = RCell('1010', (a, pruned_of(b, 1)))
         return RCell('1', (merkle_update_of(old_skel, new_full), RCell('1010', (a, b))))
+    if shape == 'exotic-lookalike':
+        a = RCell('1100', (leaf(1), leaf(2)))
+        lib = library_ref_of(a.hash)
+        pr = pruned_of(a, 1)
+        kids = [RCell('10', (lib,)), RCell(lib.bits), merkle_proof_of(RCell('10', (pr,))), RCell(pr.bits)]
+        rng.shuffle(kids)
+        return RCell('0110', tuple(kids))
     if shape == 'exotic':
         a = RCell('1100', (leaf(1), leaf(2)))
         b = RCell('0011', (leaf(3),))
